@@ -108,11 +108,11 @@ Definition parse_decimal_challenge (s : bytes) : outcome bytes :=
   | _ =>
     if forallb is_dec_digit ds then
       let v := dec_val ds in
-      if neg && negb (v =? 0) then Err (EStd 3 [])               (* "-" is not a hex digit *)
+      if neg && negb (v =? 0) then Err (EStd 2 [])               (* "-" is not a hex digit *)
       else
         let hx := hex_text v in
         let hx := hx ++ repeat 48 (256 - length hx) in
-        match hex_decode hx with Some b => Ok b | None => Err (EStd 3 []) end
+        match hex_decode hx with Some b => Ok b | None => Err (EStd 2 []) end
     else Err (EFmt T_invalid_decimal [] [s])
   end.
 
